@@ -1,10 +1,13 @@
 """C08 - subsetting preserves the character mapping of retained glyphs.
 
 design       : TLC checks SubsetCmapOK on the model of the subsetter's cmap path (CmapSubset.tla composed
-               with the readers of Cmap.tla) twice: on the repaired design (FixFmt0, FixSymInv = TRUE) it
-               must hold for every generated case; on the model of the code it may fail only in the cases
-               the named findings describe.
-spec -> impl : the second run prints one CASE per (source mapping, glyph id list, target): the glyph the
+               with the readers of Cmap.tla) twice: on the model of the code as it is now (FixFmt0, FixSymInv =
+               TRUE: both recorded defects are repaired in /repo) it must hold for every generated case; with
+               the two defects switched on it may fail only in the cases the findings describe (and fails on
+               every format 0 overflow case).  It also checks the inverse law of the Symbol -> Mac Roman
+               conversion against Cmap.tla's legacy symbol rule over all 16-bit codes and 14 values of
+               usFirstCharIndex, and that the named wrong readings (one is the seeded change C08-r2m3) break it.
+spec -> impl : the first run prints one CASE per (source mapping, glyph id list, target): the glyph the
                PROPERTY prescribes for every probe character and the encoding record the writer model
                predicts.  The harness synthesizes a TrueType font per case (source formats 4 / 12 / 0 /
                symbol 3-0, n glyphs up to 65534), calls subset::subset and prince::subset (Unrestricted /
@@ -27,9 +30,11 @@ BIN = "c08_subsetcmap"
 ASSUMPTIONS = [
     "glyph id lists start with 0 and have no duplicates (the documented precondition of subset); 'retained' means "
     "listed: glyphs pulled in only as composite components are not expected to keep their characters",
-    "generated source fonts are TrueType with empty glyphs and one cmap record (3/10 format 12, 3/1 format 4, "
-    "1/0 format 0 or 3/0 format 4 with OS/2.usFirstCharIndex); CFF sources only among the repository fonts and "
-    "only through subset::subset (prince::subset returns a bare CFF table, no cmap)",
+    "generated source fonts are TrueType with empty glyphs and one cmap record (3/10 format 12, 3/1 format 4 with idDelta "
+    "segments or with glyphIdArray segments, 1/0 format 0, 3/0 format 4 with OS/2.usFirstCharIndex or without an OS/2 table); "
+    "CFF sources only among the repository fonts and only through subset::subset (prince::subset returns a bare CFF table, no cmap)",
+    "a Symbol source under a Mac Roman target is judged on the Unicode characters that reach its codes through Font's legacy "
+    "symbol rule (Cmap.tla SymbolCode) with the source's usFirstCharIndex (0x20 without OS/2), whatever that value is",
     "which encoding record / format the subsetter writes is free; agreement with the record the writer model "
     "predicts is measured (model fidelity) but never judged",
     "named nondeterminism: Dev_MacCurrency (code 0xDB is U+00A4 or U+20AC: one reading for source and result), "
@@ -44,6 +49,32 @@ ASSUMPTIONS = [
 ]
 
 NEED_SHAPES = ["f0", "f12", "f4:delta", "f4:gia", "f4sym:delta", "f4sym:gia"]
+
+# Families the generated cases must exercise; counted by the harness from the CASE lines and the source
+# sub-tables it builds from them (its inputs), never from what allsorts returns.
+SYM_FIRSTS = ["absent", "0x0", "0x10", "0x1F", "0x20", "0x21", "0xF000", "0xF020", "0xF0FF", "0xF100"]
+TARGETS = ["Unrestricted", "MacRoman"]
+ROUTES = ["route:subset|Unrestricted", "route:prince|Unrestricted", "route:prince-cid|Unrestricted", "route:prince-new|Unrestricted",
+          "route:prince|MacRoman", "route:prince-cid|MacRoman", "route:prince-new|MacRoman"]
+
+
+def _need_families(quick):
+    need = list(ROUTES)
+    # Symbol sources: usFirstCharIndex over its parameter space x every target x codes in 0x20..0xFF and in 0xF020..0xF0FF
+    need += ["sym|first=%s|%s|%s" % (f, t, r) for f in SYM_FIRSTS for t in TARGETS for r in ("low", "high")]
+    for t in TARGETS:
+        need += ["src:3/1:f4|last-segment-real-ends-0xFFFF|retained|" + t, "src:3/1:f4gia|last-segment-real-ends-0xFFFF|retained|" + t,
+                 "src:3/10:f12|group-spans-bmp-astral-border|retained|" + t]
+        need += ["several-characters-per-glyph|pad=%d|%s" % (pd, t) for pd in ((0, 253, 254, 300) if quick else (0, 252, 253, 254, 255, 300, 65530))]
+    need += ["src:3/10:f12|character-mapped-to-glyph-0-explicitly", "src:3/1:f4|character-mapped-to-glyph-0-explicitly",
+             "src:3/1:f4gia|character-mapped-to-glyph-0-explicitly"]
+    return need
+
+
+# recorded: the repository's Symbol font rebuilt with usFirstCharIndex over the same values, codes in the PUA block
+# and moved down to the byte range (counted when the harness has built and re-read the variant: inputs)
+def _need_symbol_variants():
+    return ["first=%s|%s" % (f, r) for f in SYM_FIRSTS for r in ("low", "high") if not (f == "0xF020" and r == "high")]
 
 
 def _key(enc, first, target, out, cls, chars):
@@ -126,19 +157,42 @@ def _corrupt_event(e):
 
 
 def run(ctx):
+    """Violations take precedence over tool problems: whatever was found before a later stage failed is
+    reported (exit 1); a tool error (exit 2) is raised only when there is nothing new to report."""
+    violations, cov = [], {}
+    try:
+        _run(ctx, violations, cov)
+    except Exception as e:        # ToolError, or a driver exception on output it did not expect
+        known = vlib.load_known(ctx.prop)
+        if not any(v.key not in known for v in violations):
+            raise
+        ctx.note("a later stage failed after violations had been found; reporting the violations. Tool problem: %s" % str(e)[:1500])
+        cov.setdefault("states", 0)
+        cov.setdefault("transitions", 0)
+        cov.setdefault("traces_validated_against_impl", 0)
+        cov.setdefault("samples", [])
+        cov["incomplete_run"] = str(e)[:500]
+    vlib.finish(ctx, LEVEL, cov, violations, ASSUMPTIONS)
+
+
+def _run(ctx, violations, cov):
     binp = vlib.build_harness(BIN)
     tier = "quick" if ctx.quick else "thorough"
 
-    # design level: the repaired design satisfies SubsetCmapOK everywhere
-    fixed, _, _ = _run_mc(ctx, "MC_CmapSubset_fixed_%s.cfg" % tier, "mc_fixed", timeout=600 if ctx.quick else 1500)
-    ctx.note("MC_CmapSubset[repaired design]: %d states, SubsetCmapOK holds on every case (%.1fs)" % (fixed.distinct, fixed.wall))
-    # model of the code: SubsetCmapOK may fail only where the named findings say; cases are emitted
+    # model of the code as it is now (both repairs in): SubsetCmapOK holds on every case; the inverse law of the
+    # Symbol -> Mac Roman conversion holds and discriminates the named wrong readings (ASSUMEs); cases are emitted
     cases_path, probes_path = ctx.path("cases.ndjson"), ctx.path("probes.json")
     mc, n_cases, samples = _run_mc(ctx, "MC_CmapSubset_%s.cfg" % tier, "mc_code", cases_path, probes_path,
                                    timeout=600 if ctx.quick else 1500)
-    ctx.note("MC_CmapSubset[model of the code]: %d states, %d cases (%.1fs)" % (mc.distinct, n_cases, mc.wall))
+    ctx.note("MC_CmapSubset[model of the code]: %d states, %d cases, SubsetCmapOK holds on every case, inverse law checked (%.1fs)" %
+             (mc.distinct, n_cases, mc.wall))
     if n_cases == 0 or not os.path.exists(probes_path):
         raise vlib.ToolError("no CASE / PROBES lines generated")
+    # the two recorded defects switched on: SubsetCmapOK fails only where the findings say (the specification tells them apart)
+    fixed, _, _ = _run_mc(ctx, "MC_CmapSubset_defect_%s.cfg" % tier, "mc_defect", timeout=600 if ctx.quick else 1500)
+    ctx.note("MC_CmapSubset[recorded defects switched on]: %d states, SubsetCmapOK fails only in the cases the findings name (%.1fs)" %
+             (fixed.distinct, fixed.wall))
+    cov.update({"states": mc.distinct + fixed.distinct, "generated_cases": n_cases})
     probes = json.load(open(probes_path))
     planted = _plant_case(cases_path)
     if planted is None:
@@ -150,7 +204,6 @@ def run(ctx):
     mism_path = ctx.path("mismatches.ndjson")
     rep = vlib.run_harness(binp, ["replay", probes_path, cases_path, mism_path, tier], timeout=1500)
     ctx.note("replay: %s" % json.dumps({k: v for k, v in rep.items() if k not in ("model_diff_samples",)}))
-    violations = []
     planted_seen = False
     n_dev_cases = 0
     for m in vlib.read_ndjson(mism_path):
@@ -235,6 +288,13 @@ def run(ctx):
             missing.append("generated " + t)
         if not rec.get("thresholds", {}).get(t):
             missing.append("recorded " + t)
+    fams = rep.get("families", {})
+    missing += ["generated " + k for k in _need_families(ctx.quick) if not fams.get(k)]
+    missing += ["recorded Symbol variant " + k for k in _need_symbol_variants() if not rec.get("symbol_variants", {}).get(k)]
+    for f in SYM_FIRSTS:
+        for api in ("prince", "prince-new", "prince-cid"):
+            if not rec.get("symbol_events", {}).get("first=%s|%s|MacRoman" % (f, api)):
+                missing.append("recorded Symbol first=%s %s MacRoman" % (f, api))
     if missing:
         raise vlib.ToolError("vacuity guard: never exercised: %s" % missing)
     n_err = sum(v for k, v in rep.get("errors", {}).items() if k.startswith("err:"))      # panics are violations
@@ -244,13 +304,16 @@ def run(ctx):
     if rec.get("statuses", {}).get("err", 0) > 0.1 * max(1, rec.get("events", 0)):
         raise vlib.ToolError("vacuity guard: recorded subset calls mostly failed: %s" % rec.get("statuses"))
 
-    coverage = {
+    cov.update({
         "states": mc.distinct + fixed.distinct,
         "transitions": rep.get("runs", 0) + rec.get("events", 0),
         "traces_validated_against_impl": n_cases + rec.get("events", 0),
         "samples": [json.loads(s) for s in list(samples.values())[:3]],
-        "design_states_repaired": fixed.distinct,
+        "design_states_defects_switched_on": fixed.distinct,
         "design_states_code": mc.distinct,
+        "generated_families": fams,
+        "recorded_symbol_variants": rec.get("symbol_variants", {}),
+        "recorded_symbol_events": rec.get("symbol_events", {}),
         "generated_cases": n_cases,
         "generated_subset_calls": rep.get("runs", 0),
         "generated_subset_calls_ok": rep.get("runs_ok", 0),
@@ -281,8 +344,7 @@ def run(ctx):
         "exhaustive": True,
         "explanation": "exhaustive over the bounded generator (MC_CmapSubset_%s.cfg); recorded: %s repository fonts" %
                        (tier, "a seeded sample of" if ctx.quick else "all"),
-    }
-    vlib.finish(ctx, LEVEL, coverage, violations, ASSUMPTIONS)
+    })
 
 
 def replay(ctx, path):
